@@ -11,6 +11,7 @@ import coqterm as ct
 from fgutils.algorithm.subgraph_enumeration import node_induced_connected_subgraphs
 
 ID = "C17"
+REPEAT_PROBE = True   # engine: repeat 1 call in 5 after editing its first result in place (purity / no shared state)
 PROPS = "Props/C17.v"
 MODEL_FILES = ["Model/Cis.v", "Spec/CisSpec.v", "Spec/CisCheck.v"]
 IMPORTS = "From FGV Require Import Model.Cis Spec.CisSpec Spec.CisCheck."
